@@ -1,16 +1,17 @@
 #!/bin/bash
 # try-seeded.sh <patch.diff> <ID> [<ID>...]
 # Runs checks against a scratch copy of /repo with a seeded change applied, WITHOUT touching /repo:
-# a scratch clone of /verif (/tmp/vlead) whose harness points at /tmp/vlead-repo.
+# a scratch clone of /verif ($V) whose harness points at $R.
 set -e
 patch=$(realpath "$1"); shift
-mkdir -p /tmp/vlead-repo
-rsync -a --delete --exclude target --exclude .git /repo/ /tmp/vlead-repo/
-(cd /tmp/vlead-repo && patch -p1 -s < "$patch")
-rsync -a --delete --exclude work --exclude replays --exclude 'harness/target' --exclude 'harness/corpus_c17/target' --exclude .git /verif/ /tmp/vlead/
-sed -i 's#path = "/repo/avro"#path = "/tmp/vlead-repo/avro"#' /tmp/vlead/harness/Cargo.toml
-[ -f /tmp/vlead/harness/corpus_c17/Cargo.toml ] && sed -i 's#/repo/avro#/tmp/vlead-repo/avro#g' /tmp/vlead/harness/corpus_c17/Cargo.toml
-cd /tmp/vlead
+V=/tmp/vlead${SLOT:-}; R=/tmp/vlead${SLOT:-}-repo   # SLOT=<n> gives independent scratch copies for parallel runs
+mkdir -p $R
+rsync -a --delete --exclude target --exclude .git /repo/ $R/
+(cd $R && patch -p1 -s < "$patch")
+rsync -a --delete --exclude work --exclude replays --exclude 'harness/target' --exclude 'harness/corpus_c17/target' --exclude .git /verif/ $V/
+sed -i "s#path = \"/repo/avro\"#path = \"$R/avro\"#" $V/harness/Cargo.toml
+find $V/harness/corpus_c17 -name Cargo.toml -not -path '*/target/*' -exec sed -i "s#\"/repo/avro#\"$R/avro#g" {} +
+cd $V
 for id in "$@"; do
   echo "=== $id against $patch"
   bin/check $id --tier ${TIER:-quick} 2>&1 | grep -v "^\[check\]" | cut -c1-260 | grep "VIOLATION\|^OK\|TOOL-ERROR\|KNOWN" | head -${LINES_SHOWN:-4}
